@@ -122,16 +122,52 @@ Fixpoint save_symbols (ss : list stmt) (idx : N) (tb : symtab) : res symtab :=
       end
   end.
 
+(* Program.resolve_defined_symbol (repair F41): an EQU defined by a symbol or an expression gets that value *)
+Fixpoint tb_set (k : text) (v : value) (tb : symtab) : symtab :=
+  match tb with
+  | [] => []
+  | (k', v') :: r => if text_eqb k k' then (k', v) :: r else (k', v') :: tb_set k v r
+  end.
+
+Definition defined_error {A} (r : res A) : res A :=
+  match r with Diag 24 => Internal E_ATTR | Diag 21 => Internal E_TYPE | Diag _ => Diag 2 | _ => r end.
+
+Fixpoint resolve_defined (ss : list stmt) (tb : symtab) : res symtab :=
+  match ss with
+  | [] => Ok tb
+  | s :: r =>
+      match s_label s with
+      | [] => resolve_defined r tb
+      | lb =>
+          if Tables.is_pseudo_define (s_instr s) then
+            match lookup lb tb with
+            | Some v =>
+                if v_is_symbol v || v_is_expr v then
+                  do v' <- defined_error (resolve_value v tb);
+                  if v_is_numeric v' || v_is_address v' || v_is_addr_expr v' then resolve_defined r (tb_set lb v' tb)
+                  else Diag 2
+                else resolve_defined r tb
+            | None => Internal E_ATTR
+            end
+          else resolve_defined r tb
+      end
+  end.
+
 (* ---------- resolve and translate passes ---------- *)
 Definition resolve_stmt (tb : symtab) (s : stmt) : res stmt :=
   do o <- as_translation_error (resolve_operand (s_operand s) (s_instr s) tb);
   Ok {| s_label := s_label s; s_instr := s_instr s; s_operand := o; s_opstr := s_opstr s; s_pkg := s_pkg s;
         s_fixed := s_fixed s; s_hint := s_hint s |}.
 
+(* Operand.address_offset (repair F43): a label as the constant offset of a non-PCR register: the package
+   needs resolution but offers no post-byte choices *)
+Definition addr_offset (p : codepkg) : bool := cp_needs p && Nat.eqb (length (cp_choices p)) 0.
+
 Definition translate_stmt (s : stmt) : res stmt :=
   do p <- as_translation_error (translate_operand (s_operand s) (s_instr s));
   Ok {| s_label := s_label s; s_instr := s_instr s; s_operand := s_operand s; s_opstr := s_opstr s; s_pkg := p;
-        s_fixed := negb (cp_needs p || negb (Nat.eqb (length (cp_choices p)) 0)); s_hint := s_hint s |}.
+        s_fixed := negb ((cp_needs p && negb (addr_offset p)) || negb (Nat.eqb (length (cp_choices p)) 0));
+        s_hint := s_hint s |}.
 
 Fixpoint map_res {A B} (f : A -> res B) (l : list A) : res (list B) :=
   match l with [] => Ok [] | a :: r => do b <- f a; do rest <- map_res f r; Ok (b :: rest) end.
@@ -259,7 +295,8 @@ Fixpoint size_loop (fuel : nat) (ss : list stmt) : res (list stmt) :=
 (* ---------- addresses ---------- *)
 (* a ValueTypeError raised outside any try block escapes as an internal error *)
 Definition as_internal_value {A} (r : res A) : res A := match r with Diag _ => Internal E_VALUE | _ => r end.
-Fixpoint assign_addresses (ss : list stmt) (address : N) : res (list stmt) :=
+(* emitted: some earlier statement has a size; an ORG that moves the address after that is rejected (F45) *)
+Fixpoint assign_addresses (ss : list stmt) (address : N) (emitted : bool) : res (list stmt) :=
   match ss with
   | [] => Ok []
   | s :: r =>
@@ -267,10 +304,11 @@ Fixpoint assign_addresses (ss : list stmt) (address : N) : res (list stmt) :=
       do pa <- (if v_is_none (cp_addr p) then do a <- as_translation_error (numv address); Ok (a, address)
                 else match cp_addr p with VPyNone => Internal E_ATTR | a => Ok (a, v_int a) end);
       let '(av, a) := pa in
+      if emitted && negb (a =? address) then Diag 2 else
       let s' := set_pkg s {| cp_op := cp_op p; cp_addr := av; cp_post := cp_post p; cp_add := cp_add p;
                              cp_size := cp_size p; cp_needs := cp_needs p; cp_choices := cp_choices p;
                              cp_max := cp_max p |} (s_fixed s) (s_hint s) in
-      do rest <- assign_addresses r (a + cp_size p);
+      do rest <- assign_addresses r (a + cp_size p) (emitted || (0 <? cp_size p));
       Ok (s' :: rest)
   end.
 
@@ -338,10 +376,15 @@ Definition fix_stmt (ss : list stmt) (this : N) (s : stmt) : res stmt :=
     match ov with
     | VPyNone => Internal E_ATTR
     | _ =>
-      let digits := match s_operand s with OImmediate _ => imm_digits (s_instr s) | _ => 4 end in
+      let digits := match s_operand s with
+                    | OImmediate _ => imm_digits (s_instr s)
+                    | OPseudo _ _ => if Tables.is_multi_byte (s_instr s) then 2 else 4
+                    | ODirect _ => 2
+                    | _ => 4 end in
+      let signed := match s_operand s with ODirect _ => false | _ => true end in
       do s1 <- (match ov with
                 | VExpr l op r _ true =>
-                    do a <- calc_offset ss l op r; do a' <- as_translation_error (fit_value a digits true); Ok (with_add s a')
+                    do a <- calc_offset ss l op r; do a' <- as_translation_error (fit_value a digits signed); Ok (with_add s a')
                 | VAddr k => match nth_stmt ss k with
                              | Some t => match cp_addr (s_pkg t) with
                                          | VPyNone => Internal E_ATTR
@@ -351,7 +394,17 @@ Definition fix_stmt (ss : list stmt) (this : N) (s : stmt) : res stmt :=
                              end
                 | _ => Ok s
                 end);
-      if cp_needs p then
+      if addr_offset p then
+        do tv <- (match operand_left (s_operand s) with
+                  | Some (LVal (VExpr l op r _ true)) => calc_offset ss l op r
+                  | _ => match nth_stmt ss (v_int (cp_add (s_pkg s1))) with
+                         | Some t => match cp_addr (s_pkg t) with VPyNone => Internal E_ATTR | av => Ok av end
+                         | None => Internal E_INDEX
+                         end
+                  end);
+        do a' <- as_translation_error (fit_value tv 4 true);
+        Ok (with_add s1 a')
+      else if cp_needs p then
         do target <- (match operand_left (s_operand s) with
                       | Some (LVal (VExpr l op r _ true)) =>
                           do v <- calc_offset ss l op r;
@@ -393,6 +446,8 @@ Definition backpatch (ss : list stmt) (tb : symtab) : res symtab :=
                                   | Some t => Ok (fst kv, cp_addr (s_pkg t))
                                   | None => Internal E_INDEX
                                   end
+                     | VExpr l op r _ true =>       (* an EQU defined by label arithmetic (repairs F46, F47) *)
+                         do v <- calc_offset ss l op r; Ok (fst kv, v)
                      | v => Ok (fst kv, v)
                      end) tb.
 
@@ -402,17 +457,26 @@ Definition sym_line (kv : text * value) : res (text * list N) :=
   | v => match v_hex v with Some h => Ok (fst kv, h) | None => Unmodelled end
   end.
 
+(* the origin: the last ORG before the first statement that has a size (repair F45) *)
+Fixpoint origin_of (ss : list stmt) (cur : option value) : option value :=
+  match ss with
+  | [] => cur
+  | s :: r => let cur' := if Tables.is_origin (s_instr s) then Some (cp_addr (s_pkg s)) else cur in
+              if 0 <? cp_size (s_pkg s) then cur' else origin_of r cur'
+  end.
+
 Definition last_where (f : stmt -> bool) (ss : list stmt) : option stmt :=
   fold_left (fun acc s => if f s then Some s else acc) ss None.
 
 (* Program.translate_statements after parsing *)
 Definition translate_program (fm : filemap) (parsed : list stmt) : res (list stmt * symtab) :=
   do ss0 <- expand (S (length fm)) fm [] parsed;
-  do tb <- save_symbols ss0 0 [];
+  do tb0 <- save_symbols ss0 0 [];
+  do tb <- resolve_defined ss0 tb0;
   do ss1 <- map_res (resolve_stmt tb) ss0;
   do ss2 <- map_res translate_stmt ss1;
   do ss3 <- size_loop (S (length ss2)) ss2;
-  do ss4 <- assign_addresses ss3 0;
+  do ss4 <- assign_addresses ss3 0 false;
   do ss5 <- fix_all ss4 ss4 0;
   do tb' <- backpatch ss5 tb;
   Ok (ss5, tb').
@@ -424,5 +488,5 @@ Definition assemble (fm : filemap) (lines : list text) : res result :=
   do rs <- map_res stmt_result ss;
   do syms <- map_res sym_line tb;
   Ok {| r_image := concat (map r_bytes rs); r_stmts := rs; r_syms := syms;
-        r_origin := option_map (fun s => cp_addr (s_pkg s)) (last_where (fun s => Tables.is_origin (s_instr s)) ss);
+        r_origin := origin_of ss None;
         r_name := option_map s_opstr (last_where (fun s => Tables.is_name (s_instr s)) ss) |}.
